@@ -103,7 +103,7 @@ fn main() {
          sent in mixed case by DnsRequest::new; 512-byte receive buffer - the socket cuts longer datagrams, the cut bytes are \
          what is judged; max_retries 1 and 5; retry interval 100/500 ms via floor and request option; 700 ms timeout): default \
          configuration all schedules of length <= 4 (thorough 5) over 61 symbols, every other one length <= 3 (thorough 4), \
-         enumerated depth-first over well-formed prefixes. (b) messages with a pending id and TC / SERVFAIL / NOTIFY / UPDATE \
+         enumerated depth-first over well-formed prefixes (tie placements for schedules of length <= 4). (b) messages with a pending id and TC / SERVFAIL / NOTIFY / UPDATE \
          opcode / a foreign question must reach the request like any response (routing is by id), a QR=0 message with a \
          pending id may be dropped or delivered but reaches nobody else. (c) DnsExchange + DnsExchangeBackground over the \
          same multiplexer and scripted stream: events request (through the handle) / drop handle / drop response stream i / \
